@@ -16,25 +16,24 @@ Open Scope Z_scope.
       model of model.EqualObjects(o1, o2, xRefTable, nil) answers (true, nil), nothing a
       reader can reach distinguishes o1 from o2.  In particular the visited-`pairs` shortcut
       (a pair being compared higher up on the path counts as equal) is sound. *)
-Theorem C20_equal_objects_sound : forall g fuel o1 o2,
+Theorem C20_equal_objects_sound : forall g limit fuel o1 o2,
   wfg g -> wfo o1 = true -> wfo o2 = true ->
-  EqualObjects fuel g o1 o2 [] = CT -> forall n, sim n g o1 g o2.
+  EqualObjects fuel limit g o1 o2 [] = CT -> forall n, sim n g o1 g o2.
 Proof. exact equal_objects_sound. Qed.
 Print Assumptions C20_equal_objects_sound.
 
-(* 1b. Theorem 1 is a partial-correctness statement: it says nothing when the fuel runs out.
-      "Some fuel always suffices" (termination of EqualObjects) is REFUTED: on a cycle that
-      alternates between a direct object and a reference on either side, no pair is ever
-      recorded (pairs are recorded only when both sides are references) and the recursion
-      is unbounded, although the two objects do have the same unfolding.
-      Witness: 1 0 obj [[1 0 R]], 2 0 obj [1 0 R].  Reproduced on the real code by the
-      harness (child process: Go stack overflow, fatal): classes
-      equalobjects-unbounded-recursion-mixed-direct-indirect-cycle and
-      optimize-fatal-stack-overflow-equalobjects-mixed-cycle. *)
-Theorem C20_equal_objects_termination_refuted : exists g o1 o2,
-  wfg g /\ (forall n, sim n g o1 g o2) /\ forall fuel, EqualObjects fuel g o1 o2 [] = CFuel.
-Proof. exact termination_refuted. Qed.
-Print Assumptions C20_equal_objects_termination_refuted.
+(* 1b. EqualObjects terminates: for every graph (cycles that alternate between a direct
+      object and a reference included: no pair is recorded on those, the recursion depth
+      check ends them), every limit = xRefTable.MaxRecursionDepth(), every pair of objects and
+      every pairs slice, the fuel `enoughFuel limit` = limit + 2 (a function of the limit
+      only) or any larger fuel is never exhausted.  Such a descent ends in the error outcome
+      CE (ErrMaxRecursionDepthExceeded), never in true: every caller (handleDuplicateFontObject,
+      handleDuplicateImageObject, optimizeXObjectForm, optimizeContentStreamUsage) returns the
+      error, Optimize fails and writes nothing; no reference is substituted on an error. *)
+Theorem C20_equal_objects_terminates : forall limit g o1 o2 pairs fuel,
+  (enoughFuel limit <= fuel)%nat -> EqualObjects fuel limit g o1 o2 pairs <> CFuel.
+Proof. exact equal_objects_terminates. Qed.
+Print Assumptions C20_equal_objects_terminates.
 
 (* 2. Deduplication preserves every unfolding: if every object of g' is the object of g with
       some references b replaced by references a such that a and b have the same unfolding
@@ -49,11 +48,11 @@ Print Assumptions C20_dedup_preserves_unfolding.
 
 (* 3. The two together, for the substitution the optimizer builds: sigma redirects r to
       sigma r only when EqualObjects answered (true, nil) on the two objects. *)
-Theorem C20_optimizer_subst_preserves : forall g sigma fuel,
+Theorem C20_optimizer_subst_preserves : forall g sigma fuel limit,
   wfg g ->
   (forall r, sigma r <> r ->
      isref (g r) = false /\ isref (g (sigma r)) = false /\
-     EqualObjects fuel g (g (sigma r)) (g r) [] = CT) ->
+     EqualObjects fuel limit g (g (sigma r)) (g r) [] = CT) ->
   forall o n, sim n (substg sigma g) (substo sigma o) g o.
 Proof. exact optimizer_subst_preserves. Qed.
 Print Assumptions C20_optimizer_subst_preserves.
@@ -63,8 +62,8 @@ Print Assumptions C20_optimizer_subst_preserves.
       dicts, since the fix "deduplicate content streams only when their stream dicts are equal
       too") only identifies streams with the same unfolding: dictionaries (filters, decode
       parameters) and bytes.  A corollary of theorem 1. *)
-Theorem C20_content_dedup_preserves : forall g fuel a b,
-  wfg g -> contentStreamDup fuel g (g a) (g b) = CT ->
+Theorem C20_content_dedup_preserves : forall g fuel limit a b,
+  wfg g -> contentStreamDup fuel limit g (g a) (g b) = CT ->
   forall n, sim n g (ORef a 0) g (ORef b 0).
 Proof. exact content_dedup_preserves. Qed.
 Print Assumptions C20_content_dedup_preserves.
@@ -125,8 +124,11 @@ Definition ex_g : graph := fun nr =>
   | _ => ONull
   end.
 Example C20_nonvacuous :
-  EqualObjects 50 ex_g (ex_g 3) (ex_g 1) [] = CT /\
-  EqualObjects 50 ex_g (ORef 4 0) (ORef 5 0) [] = CF /\
+  EqualObjects (enoughFuel 100) 100 ex_g (ex_g 3) (ex_g 1) [] = CT /\
+  EqualObjects (enoughFuel 100) 100 ex_g (ORef 4 0) (ORef 5 0) [] = CF /\
+  EqualObjects (enoughFuel 100) 100 mixed_g (ORef 1 0) (ORef 2 0) [] = CE /\
+  EqualObjects (enoughFuel 3) 3 mixed_g (ORef 1 0) (ORef 2 0) [] = CE /\
+  EqualObjects (enoughFuel 3) 3 ex_g (ex_g 3) (ex_g 1) [] = CE /\
   simb 9 ex_g (ORef 1 0) ex_g (ORef 3 0) = true /\ simb 9 ex_g (ORef 4 0) ex_g (ORef 5 0) = false /\
   (forall nr, wfo (ex_g nr) = true).
 Proof.
